@@ -42,13 +42,19 @@ MulRef(f, a, b) == LET F == FieldDefs[f] IN PolyMod(ClMul(a, b), F.ptop, F.ttop,
 
 (* ---------------------------------------------------------------- tables                                   *)
 TimesAlpha(F, x) == LET s == 2 * x IN IF s >= F.q THEN s ^^ F.p ELSE s
-RECURSIVE ExpSeq(_, _, _, _)     \* <<alpha^0, .., alpha^(q-1)>>  (q entries; the last one must come back to 1)
-ExpSeq(F, i, x, acc) == IF i = F.q THEN acc ELSE ExpSeq(F, i + 1, TimesAlpha(F, x), Append(acc, x))
-RECURSIVE LogBuild(_, _, _)      \* invert once: acc[alpha^(i-1)] = i-1 for i = q-1 .. 1
-LogBuild(E, i, acc) == IF i = 0 THEN acc ELSE LogBuild(E, i - 1, [acc EXCEPT ![E[i]] = i - 1])
-MkField(f) == LET F == FieldDefs[f]
-                  E == ExpSeq(F, 0, 1, <<>>)
-              IN [exp |-> E, log |-> LogBuild(E, F.q - 1, [x \in 1..(F.q - 1) |-> -1])]
+(* <<alpha^0, .., alpha^(q-1)>> by repeated doubling of the sequence: E_2n = E_n \o (alpha^n * E_n), m times.        *)
+(* (q entries; the last one must come back to 1.)  No deep recursion: TLC slows down badly on deep stacks.          *)
+RECURSIVE ExpDouble(_, _)
+ExpDouble(f, E) == IF Len(E) = Q(f) THEN E
+                   ELSE LET an == TimesAlpha(FieldDefs[f], E[Len(E)])                  \* alpha^n
+                        IN ExpDouble(f, TLCEval(E \o [i \in 1..Len(E) |-> MulRef(f, E[i], an)]))
+(* invert once: the function alpha^(i-1) |-> i-1, assembled by halving the index range *)
+RECURSIVE LogRange(_, _, _)
+LogRange(E, lo, hi) == IF lo = hi THEN E[lo] :> (lo - 1)
+                       ELSE LET mid == (lo + hi) \div 2 IN LogRange(E, lo, mid) @@ LogRange(E, mid + 1, hi)
+MkField(f) == LET E == ExpDouble(f, <<1>>)
+                  L == LogRange(E, 1, Q(f) - 1)
+              IN [exp |-> E, log |-> TLCEval([x \in 1..(Q(f) - 1) |-> L[x]])]
 CONSTANT Fields                  \* the field ids whose tables this run needs (others are not built)
 FT == TLCEval([f \in 1..NFields |-> IF f \in Fields THEN MkField(f) ELSE [exp |-> <<>>, log |-> <<>>]])
 
